@@ -465,6 +465,18 @@ def replay(path, seed):
         want = doc_leak(inp["timeout"], inp["events"])
         print("impl now:", res, "documented leak:", want)
         return 0 if bool(res[0]) == want else 1
+    if isinstance(inp, dict) and "ground_truth" in inp and inp.get("behaviour"):
+        g = inp["ground_truth"]
+        sc = dict(profile_retries=None, leak_timeout_ms=inp.get("leak_timeout_ms", RIG_LEAK_MS),
+                  slow_period_ms=inp.get("slow_timeout_ms", RIG_SLOW_MS),
+                  bins={"ba": {inp["test"]: dict(policy=None, default=inp["behaviour"])}}, threads=1)
+        case = rig.prepare("c03_replay", sc)
+        res = vlib.run_impl(binary, "backoff", [case], shards=1)[0]
+        fin = (rig.per_test(res).get(("ba", inp["test"])) or {}).get("finished")
+        got = fin and fin["attempts"][-1]["result"]
+        rig.cleanup("c03_replay")
+        print("impl now:", got, "documented:", doc_real(g))
+        return 0 if got == doc_real(g) else 1
     if isinstance(inp, dict) and inp.get("op") == "cer":
         res = vlib.run_impl(binary, "classify", [dict(op="cer", raw=inp["raw"], err=inp["err"],
                                                       leaked=inp["leaked"])])[0]
